@@ -57,16 +57,16 @@ type Line struct {
 	Err  bool      `json:"err"`
 	Out  Out       `json:"out"`
 	// start lines
-	Target    string      `json:"target"`
-	Hops      []string    `json:"hops"`
-	Recorded  string      `json:"recorded"`
-	CbSession bool        `json:"cbsession"`
-	CbEq      bool        `json:"cbeq"`
-	CbLoc     string      `json:"cbloc"`
+	Target    string   `json:"target"`
+	Hops      []string `json:"hops"`
+	Recorded  string   `json:"recorded"`
+	CbSession bool     `json:"cbsession"`
+	CbEq      bool     `json:"cbeq"`
+	CbLoc     string   `json:"cbloc"`
 	// cbpair lines: sessions set by the two concurrent callbacks, and successful redemptions the authenticator served
-	Sessions int `json:"sessions"`
-	Redeems  int `json:"redeems"`
-	Conc      interface{} `json:"conc,omitempty"`
+	Sessions int         `json:"sessions"`
+	Redeems  int         `json:"redeems"`
+	Conc     interface{} `json:"conc,omitempty"`
 }
 
 // World is proxy + scripted authenticator + backends.
@@ -436,7 +436,11 @@ func (w *World) runCallbackPair(n int, r *rand.Rand) ([]Line, error) {
 			resps[i] = world.Do(w.P.Handler, world.NewReq("GET", hosts[i], "/oauth2/callback?"+q.Encode(), nil, []*http.Cookie{{Name: w.P.CSRFName, Value: flows[i].cookie}}, ""))
 		}(i)
 		if k == 0 {
-			time.Sleep(time.Duration(r.Intn(1500)) * time.Microsecond)
+			if r.Intn(4) == 0 {
+				wg.Wait() // back to back: a code already redeemed for one browser does not sign in the next
+			} else {
+				time.Sleep(time.Duration(r.Intn(1500)) * time.Microsecond)
+			}
 		}
 	}
 	wg.Wait()
